@@ -211,6 +211,17 @@ func c18Bases() []c18Base {
 			pages: map[string]string{"a": "<z>C2</z>", "zlay": "<z>C2</z>", "zc": "C2", "m": "middle"},
 			uses:  map[string][]string{"zlay.tw": {"a"}, "zc.tw": {"a", "zlay"}},
 		},
+		{
+			// per cent signs in file, layout and component names (they must come through error messages unharmed)
+			files: map[string]string{
+				"p%d.tw":      "@use(\"lay%s\")@insert(\"c\")X@component(\"c%v/card\")@end",
+				"lay%s.tw":    "<m>@reserve(\"c\")</m>",
+				"c%v/card.tw": "[card]",
+				"q.tw":        "100%",
+			},
+			pages: map[string]string{"p%d": "<m>X[card]</m>", "q": "100%", "c%v/card": "[card]"},
+			uses:  map[string][]string{"lay%s.tw": {"p%d"}, "c%v/card.tw": {"p%d"}},
+		},
 	}
 }
 
